@@ -339,6 +339,84 @@ fn noassert<V: Full>(prop: &mut Property) {
 
 
 
+
+// ------------------------------------------------------------------ the payload-encoding suffix is part of the header
+
+/// `vN.purpose.X` and `vNc.purpose.X` (payload type with encoding suffix "c") are different headers: a token sealed
+/// under one never unseals under the other
+fn suffix_relabel<V: Full>(prop: &mut Property) {
+    use crate::payload::RawC;
+    let name = V::NAME;
+    prop.subs.push(
+        Sub::new(format!("{name}/suffix-relabel"), 4, "{local, public} x {suffix added to the header text, suffix removed from it}: the relabelled token, parsed with the payload type that owns the new header, must not unseal; the untouched token unseals with its own type", move |idx, describe| {
+            let local = idx % 2 == 0;
+            let add = idx / 2 == 0;
+            let mut o = Outcome::new();
+            if describe {
+                o.sample = Some(json!({"backend": name, "local": local, "direction": if add { "vN. -> vNc." } else { "vNc. -> vN." }}));
+            }
+            let ks = keys::keyset::<V>(false, 0);
+            let lk = keys::local::<V>(&ks.locals[2].bytes);
+            let sk = keys::secret::<V>(&ks.secrets[0].bytes);
+            let pk = sk.public_key();
+            let msg = b"suffix is part of the header".to_vec();
+            let purpose = if local { "local" } else { "public" };
+            let plain = format!("v{}.{purpose}.", V::VER);
+            let suffixed = format!("v{}c.{purpose}.", V::VER);
+            let nv_c = NoValidation::<RawC>::dangerous_no_validation();
+            let sealed = subject(|| -> Result<String, paseto_core::PasetoError> {
+                Ok(match (local, add) {
+                    (true, true) => ops::seal_local_with::<V, _, _>(&lk, Raw(msg.clone()), b"f".to_vec(), b"", &Nonce::Lib)?.to_string(),
+                    (true, false) => ops::seal_local_with::<V, _, _>(&lk, RawC(msg.clone()), b"f".to_vec(), b"", &Nonce::Lib)?.to_string(),
+                    (false, true) => ops::seal_public_with::<V, _, _>(&sk, Raw(msg.clone()), b"f".to_vec(), b"", &Nonce::Lib)?.to_string(),
+                    (false, false) => ops::seal_public_with::<V, _, _>(&sk, RawC(msg.clone()), b"f".to_vec(), b"", &Nonce::Lib)?.to_string(),
+                })
+            });
+            let tok = match sealed {
+                Ok(Ok(t)) => t,
+                other => {
+                    o.violate_env(format!("{name}/suffix-relabel/seal"), format!("{:?}", other.map(|r| r.is_ok())), json!({}));
+                    return o;
+                }
+            };
+            let (from, to) = if add { (&plain, &suffixed) } else { (&suffixed, &plain) };
+            let Some(rest) = tok.strip_prefix(from.as_str()) else {
+                o.violate(format!("{name}/suffix-relabel/header"), format!("sealed token does not start with {from}"), json!({"token": tok}));
+                return o;
+            };
+            let relabelled = format!("{to}{rest}");
+            // unseal `t` with the payload type that owns header `suffixed?`
+            let unseal = |t: &str, as_suffixed: bool| {
+                subject(|| -> Result<Vec<u8>, paseto_core::PasetoError> {
+                    Ok(match (local, as_suffixed) {
+                        (true, false) => ops::dec::<V>(&lk, t, b"")?.0,
+                        (false, false) => ops::verify::<V>(&pk, t, b"")?.0,
+                        (true, true) => {
+                            let p: SealedToken<V, Local, RawC, Vec<u8>> = t.parse()?;
+                            p.decrypt(&lk, &nv_c)?.claims.0
+                        }
+                        (false, true) => {
+                            let p: SealedToken<V, Public, RawC, Vec<u8>> = t.parse()?;
+                            p.verify(&pk, &nv_c)?.claims.0
+                        }
+                    })
+                })
+            };
+            match unseal(&tok, !add) {
+                Ok(Ok(c)) if c == msg => o.class("own-header-accepted"),
+                other => o.violate_env(format!("{name}/suffix-relabel/own"), format!("untouched token rejected: {:?}", other.map(|r| r.is_ok())), json!({"token": tok})),
+            }
+            match unseal(&relabelled, add) {
+                Ok(Err(_)) => o.class("relabelled-rejected"),
+                Ok(Ok(_)) => o.violate_env(format!("{name}/suffix-relabel/accepted"), format!("a token sealed as {from}... unseals as {to}...: the payload-encoding suffix is not authenticated"), json!({"sealed": tok, "offered": relabelled})),
+                Err(p) => o.violate(format!("{name}/suffix-relabel/panic"), p, json!({"offered": relabelled})),
+            }
+            o
+        })
+        .witness(&["own-header-accepted", "relabelled-rejected"]),
+    );
+}
+
 // ------------------------------------------------------------------ every piece length
 
 /// one piece (message, footer, assertion) takes every length 0..=MAX, the others are short and fixed; the token is
@@ -655,6 +733,12 @@ pub fn build(ctx: &Ctx) -> Property {
     typed_footer::<backends::V3L>(&mut p);
     typed_footer::<backends::V4>(&mut p);
     typed_footer::<backends::V4S>(&mut p);
+    suffix_relabel::<backends::V1>(&mut p);
+    suffix_relabel::<backends::V2>(&mut p);
+    suffix_relabel::<backends::V3>(&mut p);
+    suffix_relabel::<backends::V3L>(&mut p);
+    suffix_relabel::<backends::V4>(&mut p);
+    suffix_relabel::<backends::V4S>(&mut p);
     long_pieces::<backends::V1>(&mut p, ctx);
     long_pieces::<backends::V2>(&mut p, ctx);
     long_pieces::<backends::V3>(&mut p, ctx);
